@@ -113,6 +113,25 @@ def xmlRead? : Sexp → Option XmlReadP
   | .list [.atom "F", .str n, b] => do let e ← exc? n b; pure (.fail e)
   | _ => none
 
+def decl? : Sexp → Option (Option Str × Option Str)
+  | .list [p, u] => do let p ← optStr? p; let u ← optStr? u; pure (p, u)
+  | _ => none
+
+/-- document trees on the wire: ( E name attrs ( ( pfx|N uri|N )... ) ( node... ) ) | ( CH piece... ) |
+    ( CDS piece... ) | ( CM s ) | ( PI t d ) | ( XD v enc|N standalone ) | ( DT name sysid|N pubid|N T|F ) | ( IGN s line col ) -/
+partial def xnode? : Sexp → Option XNode
+  | .list [.atom "E", .str n, a, .list ds, .list ks] => do
+      let a ← xattrs? a; let ds ← ds.mapM decl?; let ks ← ks.mapM xnode?; pure (.elem n a ds ks)
+  | .list (.atom "CH" :: ps) => do let ps ← ps.mapM Sexp.toStr?; pure (.chars ps)
+  | .list (.atom "CDS" :: ps) => do let ps ← ps.mapM Sexp.toStr?; pure (.cdata ps)
+  | .list [.atom "CM", .str s] => some (.comment s)
+  | .list [.atom "PI", .str t, .str d] => some (.pi t d)
+  | .list [.atom "XD", .str v, e, s] => do let e ← optStr? e; let s ← s.toInt?; pure (.decl v e s)
+  | .list [.atom "DT", .str n, s, pb, h] => do
+      let s ← optStr? s; let pb ← optStr? pb; let h ← h.toBool?; pure (.doctype n s pb h)
+  | .list [.atom "IGN", .str s, l, c] => do let l ← l.toInt?; let c ← c.toInt?; pure (.ignorable s l c)
+  | _ => none
+
 def handle : List Sexp → Option Sexp
   | [.atom "html", .list reads, .list close, .list tbl] => do
       let reads ← reads.mapM htmlRead?
@@ -125,6 +144,11 @@ def handle : List Sexp → Option Sexp
       let reads ← reads.mapM xmlRead?
       let close ← close.mapM xmlItem?
       pure (answer (xmlParseP reads close))
+  | [.atom "xmltree", .list doc, .list items] => do
+      -- is the recorded sequence of handler calls the traversal of this forest (hypothesis of xml_layer_tree)?
+      let doc ← doc.mapM xnode?
+      let items ← items.mapM xmlItem?
+      pure (ofBool (wfList doc && decide (items.map (Item.map Prod.fst) = (callbacksList doc).map Item.cb)))
   | [.atom "qname", .str s] => some (mkQName s).toSexp
   | [.atom "coalesce", f, s] => do
       let f ← f.toBool?; let s ← streamOfSexp? s; pure (streamToSexp (coalesceGo f none s))
